@@ -201,4 +201,31 @@ def run_c08(tier, seed):
                 elif not err and not same_unordered(got, want):
                     case["_got"] = got
                     res.fail("resolution", f"got {short(got)} but the rules give {short(want)}", case, rp)
+    # named-type reporting together with a reader schema, the named type being inline on one side and
+    # referred to by name on the other (C08 "inline or by reference", C09 "(name, value) pairs for named branches")
+    foo = {"type": "record", "name": "Foo", "fields": [{"name": "x", "type": "int"}]}
+    en = {"type": "enum", "name": "En", "symbols": ["A", "B"]}
+    mixes = []
+    for nm, d_in, d_val in ((foo, "Foo", {"x": 2}), (en, "En", "B")):
+        inline_first = {"type": "record", "name": "R", "fields": [{"name": "a", "type": nm}, {"name": "u", "type": ["null", d_in]}]}
+        union_first = {"type": "record", "name": "R", "fields": [{"name": "u", "type": ["null", nm]}, {"name": "a", "type": d_in}]}
+        for wsch, rsch in ((inline_first, union_first), (union_first, inline_first), (inline_first, inline_first)):
+            mixes.append((wsch, rsch, d_in, {"a": d_val, "u": d_val}, nm["type"]))
+    for wsch, rsch, name, datum, kind in mixes:
+        fo = io.BytesIO()
+        from fastavro import schemaless_writer
+        schemaless_writer(fo, wsch, datum)
+        for ropt in ({"return_named_type": True}, {"return_record_name": True}):
+            case = {"writer": short(wsch), "reader": short(rsch), "datum": short(datum), "reader_options": ropt}
+            rp = (f"import io, fastavro\nws = {wsch!r}\nrs = {rsch!r}\nfo = io.BytesIO(); fastavro.schemaless_writer(fo, ws, {datum!r})\n"
+                  f"print(fastavro.schemaless_reader(io.BytesIO(fo.getvalue()), ws, rs, **{ropt!r}))\n")
+            res.case("named_reporting_with_reader_schema", (short(wsch, 600), short(rsch, 600), tuple(ropt)), sample=case)
+            try:
+                got = schemaless_reader(io.BytesIO(fo.getvalue()), wsch, rsch, **ropt)
+            except Exception as e:   # noqa
+                res.fail("named_reporting_with_reader_schema", f"unexpected {type(e).__name__}: {e}", case, rp)
+                continue
+            reported = "return_named_type" in ropt or kind == "record"
+            if reported and got.get("u") != (name, datum["u"]):
+                res.fail("named_reporting_with_reader_schema", f"u read as {short(got.get('u'))}, expected the pair ({name!r}, value)", case, rp)
     return res
